@@ -164,7 +164,7 @@ PROPS["C17"] = {
 
 PROPS["C19"] = {
     "level": "proof",
-    "technique": "lock discipline as typestate (tokio RwLock guards keep their lexical scope in the extracted text: acquiring a lock the task already holds for writing, or calling a helper that takes it, is a failed precondition -- self-deadlock); Verus contracts on the extracted NodeInfo::can_accept_writes (equals the property's eligibility predicate), ShardAssignment::assign_shard / unassign_shard (one node per shard, an assignment whose node is still eligible is reused) and DistributedWriteRouter::route_write (returns only the registry's current record of an eligible node, or an error; termination by a decreases measure — unbounded recursion or an unbounded loop fails the termination obligation)",
+    "technique": "lock discipline as typestate (tokio RwLock guards keep their lexical scope in the extracted text: acquiring a lock the task already holds for writing, or calling a helper that takes it, is a failed precondition -- self-deadlock); Verus contracts on the extracted NodeInfo::can_accept_writes (equals the property's eligibility predicate), ShardAssignment::assign_shard / unassign_shard (one node per shard, an assignment whose node is still eligible is reused), ShardAssignment::rebalance and update_node_shards (every shard stays assigned to one node; it moves only onto a node that can accept writes now; the ring and assignment locks are free on return and update_node_shards is never called under the assignment write lock) and DistributedWriteRouter::route_write (returns only the registry's current record of an eligible node, or an error; termination by a decreases measure — unbounded recursion or an unbounded loop fails the termination obligation)",
     "verus": ["c19_routing.rs.in"],
     "explanation": "",
     "assumptions": [
